@@ -211,7 +211,7 @@ type cmdCase struct {
 	Plugins []plugSpec // -p arguments in order
 	Extra   []string   // extra argv before the IDL
 	Env     map[string]string
-	Second  *config // a second -g
+	Second  *config    // a second -g
 	Prelude [][]string // earlier invocations in the same process (argv each), see drv.runCmdWorld
 	// PreludeWd[i] != "": earlier invocation i is sdk.RunThriftgoAsSDK(PreludeWd[i], nil, argv[1:]...);
 	// SdkWd != "": the observed invocation is sdk.RunThriftgoAsSDK(SdkWd, nil, argv[1:]...) instead of main()
